@@ -38,6 +38,18 @@ def build(cfg):
     from EasyFEA import Simulations, Models
 
     mesh = orphan_mesh() if cfg.get("orphan") else simlib.small_mesh(cfg.get("mesh", "tri4"))
+    if cfg["sim"] == "nonsym":
+        # a user-defined (weak-form like) problem with a NON-symmetric matrix: 2 dofs per node, concrete rational element matrices
+        simu = simlib.make_symsimu(mesh, dof_n=2)
+        for g in mesh.Get_list_groupElem():
+            nd = g.nPe * 2
+            K_e = np.empty((g.Ne, nd, nd), dtype=object)
+            for e in range(g.Ne):
+                for i in range(nd):
+                    for j in range(nd):
+                        K_e[e, i, j] = Fraction(5 + (e + i) % 3) if i == j else Fraction(((2 * e + 3 * i - 2 * j) % 7) - 3, 6)
+            simu.mats[g.elemType] = (K_e, None, None, None)
+        return mesh, simu
     if cfg["sim"] == "elastic":
         simu = Simulations.Elastic(mesh, make_material("iso_stress", 2), verbosity=False)
     else:
@@ -110,6 +122,8 @@ def job_layout(cfg):
     facade.install()
     mesh, simu = build(cfg)
     layout = (LAYOUTS_T if cfg["sim"] == "thermal" else LAYOUTS)[cfg["layout"]]
+    if cfg["sim"] == "nonsym":
+        layout = [x for x in layout if x[0] != "S"]  # surface loads need a model thickness semantics; keep point loads
     key = f"{cfg['sim']} {cfg['layout']}" + (" +orphan" if cfg.get("orphan") else "") + (" newton" if cfg.get("newton") else "")
     pt = simu.problemType
     dof_n = simu.Get_dof_n(pt)
@@ -385,6 +399,9 @@ def main():
     for lay in LAYOUTS:
         configs.append({"sim": "elastic", "layout": lay})
         configs.append({"sim": "elastic", "layout": lay, "orphan": True})
+    for lay in ("disjoint", "duplicated"):
+        configs.append({"sim": "nonsym", "layout": lay})
+    configs.append({"sim": "nonsym", "layout": "overlap", "orphan": True})
     configs.append({"sim": "thermal", "layout": "thermal"})
     configs.append({"sim": "thermal", "layout": "thermal", "orphan": True})
     configs.append({"sim": "elastic", "layout": "disjoint", "newton": True})
